@@ -124,9 +124,10 @@ def install(R):
 
     # ---------------------------------------------------------------- Crop.choose_batch_settings
     R.add(K + "Crop.choose_batch_settings", cls="Crop", types={"combos": "V", "cases": "V"}, result="none",
-          ghost={"N": "int"}, props=["C07"],
+          ghost={"N": "int"}, ghost_at_call={"N": "NSettings(combos, cases)"}, props=["C07"],
           requires=[
-              ("types", "none_or_int(self.batchsize) and none_or_int(self.num_batches) and none_or_int(self._batch_remainder)"),
+              ("types", "none_or_int(self.batchsize) and none_or_int(self.num_batches) and none_or_int(self._batch_remainder) "
+                        "and (self._batch_remainder is None or ival(self._batch_remainder) >= 0)"),
               ("N", "N == NSettings(combos, cases) and N >= 1"),
               ("combos", "combos is None or is_seq(combos)"),
           ],
@@ -144,11 +145,13 @@ def install(R):
                              "and 0 <= ival(self._batch_remainder) and ival(self._batch_remainder) < ival(self.num_batches))"),
               ("both_given", "implies(old(self.num_batches) is not None and old(self.batchsize) is not None, "
                              "self.batchsize == old(self.batchsize) and self.num_batches == old(self.num_batches) "
-                             "and self._batch_remainder == old(self._batch_remainder) "
+                             "and self._batch_remainder == (0 if old(self._batch_remainder) is None else old(self._batch_remainder)) "
                              "and N <= ival(self.batchsize) * ival(self.num_batches) + (0 if self._batch_remainder is None else ival(self._batch_remainder)) "
                              "and ival(self.batchsize) * ival(self.num_batches) + (0 if self._batch_remainder is None else ival(self._batch_remainder)) < N + ival(self.batchsize))"),
-              ("valid", "implies(old(self.num_batches) is None or old(self.batchsize) is None, "
+              ("valid", "implies(old(self.num_batches) is None or old(self.batchsize) is None or old(self._batch_remainder) is None, "
                         "BatchingValid(N, self.batchsize, self.num_batches, self._batch_remainder))"),
+              ("sower_ready", "is_int(self.batchsize) and ival(self.batchsize) >= 1 and is_int(self._batch_remainder) and ival(self._batch_remainder) >= 0 "
+                              "and is_int(self.num_batches)"),
           ],
           raises={
               "ValueError": dict(when="(self.batchsize is not None and self.num_batches is not None) or "
@@ -181,6 +184,7 @@ def install(R):
                        "fs_complete(BatchPath(self.crop.location, self._batch_counter)) and "
                        "fs_content(BatchPath(self.crop.location, self._batch_counter)) == old(self._batch_cases)"),
               ("frame", "fs_same_except(BatchPath(self.crop.location, self._batch_counter))"),
+              ("results_untouched", "results_untouched(self.crop.location)"),
           ])
 
     R.add(K + "Sower.__call__", cls="Sower", types={}, result="none", props=["C07", "C04"],
@@ -191,7 +195,8 @@ def install(R):
           ensures=[("inv", "SowerInv(self)"),
                    ("stream", "self.g_stream == snoc(old(self.g_stream), kwargs) and self.g_k == old(self.g_k) + 1"),
                    ("crop_frame", "self.crop == old(self.crop) and self.crop.batchsize == old(self.crop.batchsize) "
-                                  "and self.crop._batch_remainder == old(self.crop._batch_remainder)")])
+                                  "and self.crop._batch_remainder == old(self.crop._batch_remainder)"),
+                   ("results_untouched", "results_untouched(self.crop.location)")])
 
     R.add(K + "Sower.__enter__", cls="Sower", inline=True)
 
@@ -214,6 +219,7 @@ def install(R):
                            "blen(j, self.crop.batchsize, self.crop._batch_remainder, self.g_k) >= 1))"),
               ("covers", "offset(ival(self.crop.num_batches), self.crop.batchsize, self.crop._batch_remainder) + "
                          "blen(ival(self.crop.num_batches), self.crop.batchsize, self.crop._batch_remainder, self.g_k) == self.g_k"),
+              ("results_untouched", "results_untouched(self.crop.location)"),
               ("size_bound", "forall(lambda j: implies(1 <= j and j <= ival(self.crop.num_batches), "
                              "blen(j, self.crop.batchsize, self.crop._batch_remainder, self.g_k) <= ival(self.crop.batchsize) + (1 if ival(self.crop._batch_remainder) > 0 else 0)))"),
           ])
